@@ -42,7 +42,9 @@ Judge(rec) ==
                                       /\ EnvOK([i \in 1..Len(ta.t.fs) |-> [n |-> ta.t.fs[i].n, t |-> ta.t.fs[i].t]], EnvOfObj(vb.v)) IN
                      (IF o.pair.compile = "panic" \/ o.pair.invoke = "panic" THEN {"panic_pair"} ELSE {})
                      \cup (IF (o.pair.compile = "ok") # compiles THEN {"paircompile"} ELSE {})
-                     \cup (IF o.pair.compile = "ok" /\ compiles /\ (o.pair.invoke = "value") # accepts THEN {"pairaccept"} ELSE {}))
+                     \cup (IF o.pair.compile = "ok" /\ compiles /\ (o.pair.invoke = "value") # accepts THEN {"pairaccept"} ELSE {})
+                     \* ... and the same after the callable has been used with the compile-time sample itself
+                     \cup (IF o.pair.compile = "ok" /\ compiles /\ o.pair.warm \in {"value", "error"} /\ (o.pair.warm = "value") # accepts THEN {"pairwarm"} ELSE {}))
              ELSE {})
 
 Init == st \in {[c |-> c, l |-> ChunkLo(c, N)] : c \in 1..NChunks}
